@@ -26,10 +26,10 @@ EXTENDS Integers, Sequences, FiniteSets, TLC
 
 CONSTANTS
   Devs,      \* sequence of device records (see DevOf)
-  Pulses,    \* catalogue of pulse records [dur, rs, ph, pps, dd, am, av, dm, dn, fin]
+  Pulses,    \* catalogue of pulse records [dur, rs, ph, pps, dd, am, av, dm, dn, dx, fin]
   PF,        \* PF[d][cid][p] = [fs, fe, w]: fall times (std, eom) and fingerprint of pulse p
              \*   after duration adjustment on channel cid of device d (numeric oracle, DESIGN 2.4)
-  SP,        \* SP[d][cid] = sequence of EOM setpoints [amp, don, doff, dofm, out]
+  SP,        \* SP[d][cid] = sequence of EOM setpoints [amp, don, doff, out]
   CF,        \* CF[d][cid][sp][kind][dur \div clock] = <<fs, fe>> for scheduler-made constant
              \*   pulses: kind 1 = EOM pulse (amp, don), kind 2 = detuned delay (0, doff)
   Calls,     \* sequence of call records: the argument lattice of the configuration
@@ -79,10 +79,12 @@ RefIdx(st, b) ==
 -----------------------------------------------------------------------------
 (* Slots.  w = fingerprint of a pulse as scheduled:                          *)
 (*   <<duration, first amp, last amp, max amp, avg amp, first det, last det, *)
-(*     max |det| rounded to 1e-6, min det rounded to 1e-6, all-finite (1/0)>> *)
+(*     max |det| rounded to 1e-6, min det rounded to 1e-6, all-finite (1/0),  *)
+(*     max det rounded to 1e-6>>                                              *)
 NoW == <<>>
 Abs(x) == IF x < 0 THEN -x ELSE x
-ConstW(dur, amp, det) == <<dur, amp, amp, amp, amp, det, det, Abs(det), det, 1>>
+ConstW(dur, amp, det) == <<dur, amp, amp, amp, amp, det, det, Abs(det), det, 1, det>>
+NoLim == 1      \* "None" for the (negative) DMM bottom detunings
 TSlot(ti, tf, tg) ==
   [k |-> "t", ti |-> ti, tf |-> tf, tg |-> tg, ph |-> 0, fs |-> 0, fe |-> 0,
    dd |-> FALSE, w |-> NoW]
@@ -234,10 +236,14 @@ FindAddDelay(st, i, t0, proto) ==
         IN overCh(j + 1, scan(Len(c.sl)))
   IN overCh(1, t0)
 
-(* phase drift parameters of the EOM corrections: rate in 1e-3 rad/us,     *)
-(* phases in 1e-6 rad (only used by configurations with PhaseMod = 6283185) *)
+(* phase drift parameters of the EOM corrections (_PhaseDriftParams): rate in  *)
+(* 1e-6 rad/us, times in ns, result in 1e-6 rad (only used by configurations   *)
+(* whose phase unit is 1e-6 rad); computed in two parts to stay within 32 bits *)
 NoDrift == [on |-> FALSE, rate |-> 0, ti |-> 0]
-DriftAt(dp, t) == IF dp.on THEN (dp.rate * (t - dp.ti)) \div 1000 ELSE 0
+DriftAt(dp, t) ==
+  IF dp.on
+  THEN (dp.rate \div 1000) * (t - dp.ti) + ((dp.rate % 1000) * (t - dp.ti)) \div 1000
+  ELSE 0
 
 (* _Schedule.make_next_pulse_slot; ph is the phase AFTER adding the reference *)
 (* (Pulse.__init__ has already reduced it modulo 2*pi)                        *)
@@ -317,25 +323,39 @@ ValidPulse(cfg, P) ==
 Measured(st) == st.meas # ""
 Protocols == {"min-delay", "no-delay", "wait-for-all"}
 
-(* Sequence._validate_channel (block_if_slm handled by callers of DMM ops) *)
-ValidChan(st, nm, blockEom) ==
+(* Sequence._validate_channel *)
+ValidChanS(st, nm, blockEom, blockSlm) ==
   LET i == ChIdx(st, nm) IN
   IF i = 0 THEN "VE"
   ELSE IF blockEom /\ InEom(st.ch[i]) THEN "RE"
+  ELSE IF blockSlm /\ st.slmNm = nm /\ st.ch[i].wt THEN "VE"
+  ELSE "ok"
+ValidChan(st, nm, blockEom) == ValidChanS(st, nm, blockEom, FALSE)
+IsDmmName(nm) == nm >= 100
+
+(* DMM.validate_pulse; M = <<2 * max weight, 2 * sum of weights>> of the detuning map *)
+ValidDmmPulse(cfg, P, M) ==
+  IF ValidPulse(cfg, P) # "ok" THEN "VE"
+  ELSE IF P.dx > 0 THEN "VE"
+  ELSE IF cfg.bottom # NoLim /\ M[1] * P.dn < 2 * cfg.bottom THEN "VE"
+  ELSE IF cfg.tbottom # NoLim /\ M[2] * P.dn < 2 * cfg.tbottom THEN "VE"
   ELSE "ok"
 
-(* Sequence._add for a catalogue pulse or an EOM pulse.                     *)
+PopCount(m, nq) == Cardinality({q \in 1..nq : HasBit(m, q)})
+
+(* Sequence._add after validation, without the SLM trigger.                  *)
 (* P = [dur, ph, pps, dd, fs, fe, w] already validated and duration-adjusted *)
-AddCore(st, i, P, proto, dp) ==
+AddCore0(st, i, P, proto, dp) ==
   LET c == st.ch[i]
       cfg == CfgOf(st, i)
       last == LastOf(c.sl)
       bi == RefIdx(st, cfg.basis)
       refs == RefPhases(st, bi, last.tg)
+      isDmm == cfg.kind = "dmm"
   IN
-  IF Cardinality(refs) # 1 THEN Err(st, "VE")
+  IF ~isDmm /\ Cardinality(refs) # 1 THEN Err(st, "VE")
   ELSE
-  LET ref == CHOOSE x \in refs : TRUE
+  LET ref == IF isDmm THEN 0 ELSE CHOOSE x \in refs : TRUE
       ph == PMod(P.ph + ref)
       barrier == RefBarrier(st, bi, last.tg)
       r == AddPulse(st, i, P.dur, ph, barrier, proto, dp, P.fs, P.fe, P.dd, P.w)
@@ -347,10 +367,46 @@ AddCore(st, i, P, proto, dp) ==
       shift == P.pps - DriftAt(dp, new.ti)
   IN Ok(IF shift # 0 THEN ShiftRefs(st2, bi, last.tg, shift) ELSE st2)
 
+(* Sequence._modulate_slm_mask_dmm: the DMM of the SLM mask gets one pulse    *)
+(* 0 -> dur of detuning max(-10 * amax, bottom, total bottom / #targets)      *)
+ModulateSlm(st, dur, amax) ==
+  LET j == ChIdx(st, st.slmNm)
+      cfg == CfgOf(st, j)
+      n == PopCount(st.slmTg, NQ(st))
+      m0 == -10 * amax
+      m1 == IF cfg.bottom # NoLim /\ cfg.bottom # 0 /\ m0 < cfg.bottom THEN cfg.bottom ELSE m0
+      m2 == IF cfg.tbottom # NoLim /\ cfg.tbottom # 0 /\ m1 * n < cfg.tbottom
+            THEN (IF cfg.tbottom % n = 0 THEN cfg.tbottom \div n
+                  ELSE Assert(FALSE, <<"total bottom not divisible", cfg.tbottom, n>>))
+            ELSE m1
+      st1 == [st EXCEPT !.ch[j].wt = FALSE]
+      P == [am |-> 0, av |-> 0, dm |-> Abs(m2), dn |-> m2, dx |-> m2]
+      v == VDur(cfg, dur)
+  IN
+  IF cfg.rise # 0 THEN Assert(FALSE, "modulated DMM not supported by the model")
+  ELSE IF Measured(st1) /\ FALSE THEN Err(st1, "RE")       \* _add is not block_if_measured
+  ELSE IF ValidDmmPulse(cfg, P, st1.ch[j].mp) # "ok" THEN Err(st1, "VE")
+  ELSE IF v.out # "ok" THEN Err(st1, v.out)
+  ELSE AddCore0(st1, j, [dur |-> v.v, ph |-> 0, pps |-> 0, dd |-> TRUE, fs |-> 0, fe |-> 0,
+                         w |-> ConstW(v.v, 0, m2)], "no-delay", NoDrift)
+
+(* Sequence._add: AddCore0 followed by the SLM trigger (first non-detuned-delay *)
+(* pulse on a Global non-DMM channel while the SLM DMM is waiting)              *)
+AddCore(st, i, P, proto, dp) ==
+  LET r == AddCore0(st, i, P, proto, dp)
+      cfg == CfgOf(st, i)
+  IN
+  IF r.out # "ok" THEN r
+  ELSE IF /\ r.st.mode = "ising" /\ r.st.slmNm # 0
+          /\ r.st.ch[ChIdx(r.st, r.st.slmNm)].wt
+          /\ cfg.addr = "G" /\ ~P.dd /\ cfg.kind # "dmm"
+       THEN ModulateSlm(r.st, ChanDur(r.st.ch[i]), P.w[4])
+       ELSE r
+
 (* Sequence.add *)
 Add(st, nm, p, proto) ==
   IF Measured(st) THEN Err(st, "RE")
-  ELSE LET vc == ValidChan(st, nm, TRUE) IN
+  ELSE LET vc == ValidChanS(st, nm, TRUE, IsDmmName(nm)) IN
   IF vc # "ok" THEN Err(st, vc)
   ELSE
   LET i == ChIdx(st, nm)
@@ -375,7 +431,7 @@ Add(st, nm, p, proto) ==
 
 (* Sequence.estimate_added_delay (read-only) *)
 Estimate(st, nm, p, proto) ==
-  LET vc == ValidChan(st, nm, FALSE) IN
+  LET vc == ValidChanS(st, nm, FALSE, IsDmmName(nm)) IN
   IF vc # "ok" THEN Err(st, vc)
   ELSE IF proto \notin Protocols THEN Err(st, "VE")
   ELSE
@@ -390,6 +446,7 @@ Estimate(st, nm, p, proto) ==
       refs == RefPhases(st, bi, last.tg)
   IN
   IF cfg.kind # "dmm" /\ Cardinality(refs) # 1 THEN Err(st, "VE")
+  ELSE IF cfg.kind = "dmm" /\ ValidDmmPulse(cfg, P, st.ch[i].mp) # "ok" THEN Err(st, "VE")
   ELSE IF ValidPulse(cfg, P) # "ok" THEN Err(st, ValidPulse(cfg, P))
   ELSE
   LET v == VDur(cfg, P.dur) IN
@@ -426,7 +483,7 @@ Target(st, nm, mask) ==
 (* Sequence._delay *)
 DelayCore(st, nm, d, rest) ==
   IF Measured(st) THEN Err(st, "RE")
-  ELSE LET vc == ValidChan(st, nm, FALSE) IN
+  ELSE LET vc == ValidChanS(st, nm, FALSE, TRUE) IN
   IF vc # "ok" THEN Err(st, vc)
   ELSE
   LET i == ChIdx(st, nm)
@@ -476,7 +533,8 @@ PhaseShift(st, phi, mask, basis) ==
   ELSE LET m == IF mask = 0 THEN AllMask(nq) ELSE mask IN
        Ok([ShiftRefs(st, bi, m, phi) EXCEPT !.lg = Append(@, "phase_shift")])
 
-SupportedBases(st) == {DevOf(st).chs[k].basis : k \in 1..Len(DevOf(st).chs)}
+SupportedBases(st) ==
+  {DevOf(st).chs[k].basis : k \in {x \in 1..Len(DevOf(st).chs) : DevOf(st).chs[x].kind # "dmm"}}
 
 (* Sequence.measure *)
 Measure(st, basis) ==
@@ -496,6 +554,138 @@ Avail(st, cid) ==
        /\ IF st.mode = "xy" THEN (cfg.basis = "XY" \/ (cfg.kind = "dmm" /\ st.slmDmm = 0))
           ELSE cfg.basis # "XY"
 
+(* ---- DMM / SLM ---------------------------------------------------------- *)
+DmmOrdinal(D, cid) == Cardinality({k \in 1..(cid - 1) : D.chs[k].kind = "dmm"})
+DmmNm(st, cid) ==
+  100 + DmmOrdinal(DevOf(st), cid)
+      + 10 * Cardinality({j \in 1..Len(st.ch) : st.ch[j].cid = cid})
+
+(* Sequence._config_detuning_map, entering Ising mode or not (enter = FALSE when *)
+(* called from the _in_ising setter itself, which has already switched modes)    *)
+EnsureRef(st, basis) ==
+  IF RefIdx(st, basis) = 0
+  THEN [st EXCEPT !.rf = Append(@, [b |-> basis, q |-> [x \in 1..NQ(st) |-> NewRef]])]
+  ELSE st
+
+AppendDmm(st, mp, cid) ==
+  LET nm == DmmNm(st, cid)
+      st1 == [st EXCEPT !.ch = Append(@, [nm |-> nm, cid |-> cid,
+                                          sl |-> <<TSlot(-1, 0, AllMask(NQ(st)))>>,
+                                          eb |-> <<>>, wt |-> FALSE, mp |-> mp])]
+  IN EnsureRef(st1, "ground-rydberg")
+
+DmmChecks(st, cid) ==
+  IF cid < 1 \/ cid > Len(DevOf(st).chs) THEN "VE"
+  ELSE IF DevOf(st).chs[cid].kind # "dmm" THEN "VE"
+  ELSE IF st.mode = "xy" THEN "VE"
+  ELSE IF ~Avail(st, cid) THEN "VE"
+  ELSE "ok"
+
+(* _Schedule.find_slm_mask_times: the first real pulse of the global non-DMM   *)
+(* channel that starts the earliest; <<>> if none                               *)
+FirstRealPulse(c) ==
+  LET I == {k \in 1..Len(c.sl) : c.sl[k].k = "p" /\ ~c.sl[k].dd}
+  IN IF I = {} THEN 0 ELSE CHOOSE k \in I : \A l \in I : k <= l
+GlobalChans(st) ==
+  {j \in 1..Len(st.ch) : CfgOf(st, j).addr = "G" /\ CfgOf(st, j).kind # "dmm"}
+SlmTimes(st) ==
+  LET J == {j \in GlobalChans(st) : FirstRealPulse(st.ch[j]) # 0}
+      Ti(j) == st.ch[j].sl[FirstRealPulse(st.ch[j])].ti
+  IN IF J = {} THEN <<>>
+     ELSE LET j == CHOOSE j \in J : \A l \in J : Ti(j) < Ti(l) \/ (Ti(j) = Ti(l) /\ j <= l)
+          IN <<Ti(j), st.ch[j].sl[FirstRealPulse(st.ch[j])].tf>>
+
+(* max of the amplitude samples of channel c before time tf (pulses that straddle *)
+(* tf must be flat for the model to know the maximum of the part before tf)       *)
+MaxAmpBefore(c, tf) ==
+  LET I == {k \in 1..Len(c.sl) : c.sl[k].k = "p" /\ c.sl[k].ti < tf}
+      A(k) == IF c.sl[k].tf <= tf \/ (c.sl[k].w[2] = c.sl[k].w[4] /\ c.sl[k].w[3] = c.sl[k].w[4])
+              THEN c.sl[k].w[4]
+              ELSE Assert(FALSE, "non-flat pulse straddles the SLM mask end")
+  IN IF I = {} THEN 0 ELSE LET k == CHOOSE k \in I : \A l \in I : A(l) <= A(k) IN A(k)
+
+(* Sequence._set_slm_mask_dmm (mode is already Ising) *)
+SetSlmDmm(st, cid, tg) ==
+  LET chk == DmmChecks(st, cid) IN
+  IF chk # "ok" THEN Err(st, chk)
+  ELSE
+  LET n == PopCount(tg, NQ(st))
+      st1 == AppendDmm(st, <<IF n > 0 THEN 2 ELSE 0, 2 * n>>, cid)
+      nm == LastOf(st1.ch).nm
+      st2 == [st1 EXCEPT !.slmDmm = cid, !.slmNm = nm]
+      tms == SlmTimes(st2)
+  IN
+  IF tms = <<>> THEN Ok([st2 EXCEPT !.ch[Len(st2.ch)].wt = TRUE])
+  ELSE IF \E j \in GlobalChans(st2) : ChanDur(st2.ch[j]) = 0
+       THEN Err(st2, "VE")      \* Quirk: np.max of the empty sample array of an idle global channel
+  ELSE LET G == GlobalChans(st2)
+           M(j) == MaxAmpBefore(st2.ch[j], tms[2])
+           j == CHOOSE j \in G : \A l \in G : M(l) <= M(j)
+       IN ModulateSlm(st2, tms[2], M(j))
+
+(* the _in_ising setter *)
+EnterIsing(st) ==
+  IF st.mode # "none" THEN Ok(st)
+  ELSE LET st1 == [st EXCEPT !.mode = "ising"] IN
+       IF st.slmDmm # 0 THEN SetSlmDmm(st1, st.slmDmm, st.slmTg) ELSE Ok(st1)
+
+(* Sequence.config_detuning_map; mp = <<2 * max weight, 2 * sum of weights>> *)
+ConfigDetMap(st, mp, cid) ==
+  IF Measured(st) THEN Err(st, "RE")
+  ELSE LET chk == DmmChecks(st, cid) IN
+  IF chk # "ok" THEN Err(st, chk)
+  ELSE LET r == EnterIsing(st) IN
+  IF r.out # "ok" THEN r
+  ELSE Ok([AppendDmm(r.st, mp, cid) EXCEPT !.lg = Append(@, "config_detuning_map")])
+
+(* Sequence.config_slm_mask (not blocked after measurement) *)
+ConfigSlm(st, tg, cid) ==
+  LET D == DevOf(st) IN
+  IF ~D.slm THEN Err(st, "VE")
+  ELSE IF tg = 0 THEN Assert(FALSE, "empty SLM target set is outside the model")
+  ELSE IF tg > AllMask(NQ(st)) THEN Err(st, "VE")
+  ELSE IF st.slmTg # 0 THEN Err(st, "VE")
+  ELSE
+  LET r == IF st.mode # "ising"
+           THEN (IF cid < 1 \/ cid > Len(D.chs) THEN Err(st, "VE")
+                 ELSE IF D.chs[cid].kind # "dmm" THEN Err(st, "VE")
+                 ELSE Ok([st EXCEPT !.slmDmm = cid]))
+           ELSE SetSlmDmm(st, cid, tg)
+  IN IF r.out # "ok" THEN r
+     ELSE Ok([r.st EXCEPT !.slmTg = tg, !.lg = Append(@, "config_slm_mask")])
+
+(* Sequence.add_dmm_detuning: the detuning waveform of catalogue pulse p *)
+AddDmm(st, nm, p, proto) ==
+  IF Measured(st) THEN Err(st, "RE")
+  ELSE LET vc == ValidChanS(st, nm, FALSE, TRUE) IN
+  IF vc # "ok" THEN Err(st, vc)
+  ELSE
+  LET i == ChIdx(st, nm)
+      cfg == CfgOf(st, i)
+      P == Pulses[p]
+  IN
+  IF cfg.kind # "dmm" THEN Err(st, "VE")
+  ELSE IF proto \notin Protocols THEN Err(st, "VE")
+  ELSE IF ValidDmmPulse(cfg, P, st.ch[i].mp) # "ok" THEN Err(st, "VE")
+  ELSE
+  LET v == VDur(cfg, P.dur) IN
+  IF v.out # "ok" THEN Err(st, v.out)
+  ELSE IF v.v # P.dur /\ ~P.rs THEN Err(st, "TE")
+  ELSE
+  LET f == PF[st.dev][st.ch[i].cid][p]
+      r == AddCore(st, i, [dur |-> v.v, ph |-> P.ph, pps |-> P.pps, dd |-> P.dd,
+                           fs |-> f.fs, fe |-> f.fe, w |-> f.w], proto, NoDrift)
+  IN IF r.out = "ok"
+     THEN Ok([r.st EXCEPT !.empty = FALSE, !.lg = Append(@, "add_dmm_detuning")]) ELSE r
+
+(* Sequence.set_magnetic_field; zero = the given vector has norm 0 *)
+MagField(st, zero) ==
+  IF st.mode # "xy" /\ Len(st.ch) > 0 THEN Err(st, "VE")
+  ELSE IF st.mode = "xy" /\ ~st.empty THEN Err(st, "VE")
+  ELSE LET st1 == [st EXCEPT !.mode = "xy"] IN      \* switched BEFORE the zero-norm check
+       IF zero THEN Err(st1, "VE")
+       ELSE Ok([st1 EXCEPT !.lg = Append(@, "set_magnetic_field")])
+
 (* Sequence.declare_channel; it = initial target mask, 0 = None *)
 Declare(st, nm, cid, it) ==
   IF Measured(st) THEN Err(st, "RE")
@@ -507,15 +697,18 @@ Declare(st, nm, cid, it) ==
   LET cfg == DevOf(st).chs[cid]
       nq == NQ(st)
       \* XY: set_magnetic_field() logs its own call the first time
-      st1 == IF cfg.basis = "XY"
-             THEN (IF st.mode # "xy"
-                   THEN [st EXCEPT !.mode = "xy", !.lg = Append(@, "set_magnetic_field")]
-                   ELSE st)
-             ELSE [st EXCEPT !.mode = "ising"]
-      st2 == [st1 EXCEPT !.ch = Append(@, [nm |-> nm, cid |-> cid, sl |-> <<>>, eb |-> <<>>])]
-      st3 == IF RefIdx(st2, cfg.basis) = 0
-             THEN [st2 EXCEPT !.rf = Append(@, [b |-> cfg.basis, q |-> [x \in 1..nq |-> NewRef]])]
-             ELSE st2
+      r1 == IF cfg.basis = "XY"
+            THEN Ok(IF st.mode # "xy"
+                    THEN [st EXCEPT !.mode = "xy", !.lg = Append(@, "set_magnetic_field")]
+                    ELSE st)
+            ELSE EnterIsing(st)    \* may configure the DMM of a pending SLM mask first
+  IN
+  IF r1.out # "ok" THEN r1
+  ELSE
+  LET st1 == r1.st
+      st2 == [st1 EXCEPT !.ch = Append(@, [nm |-> nm, cid |-> cid, sl |-> <<>>, eb |-> <<>>,
+                                           wt |-> FALSE, mp |-> <<0, 0>>])]
+      st3 == EnsureRef(st2, cfg.basis)
       i == Len(st3.ch)
       r == IF cfg.addr = "G"
            THEN Ok([st3 EXCEPT !.ch[i].sl = <<TSlot(-1, 0, AllMask(nq))>>])
@@ -530,14 +723,14 @@ LastEomDrift(c) ==
   LET blk == LastOf(c.eb)
       lp == LastPulseIdx(c, TRUE)
       ltf == IF lp = 0 THEN 0 ELSE c.sl[lp].tf
-  IN [on |-> TRUE, rate |-> -blk.dofm, ti |-> Max2(blk.ti, ltf)]
+  IN [on |-> TRUE, rate |-> -blk.doff, ti |-> Max2(blk.ti, ltf)]
 
 (* _Schedule.enable_eom *)
 EnableEomSched(st, i, sp, skipBuffer, skipWait) ==
   LET cfg == CfgOf(st, i)
       S == SetP(st, i, sp)
       blk0 == [ti |-> 0, tf |-> -1, sp |-> sp, amp |-> S.amp, don |-> S.don,
-               doff |-> S.doff, dofm |-> S.dofm]
+               doff |-> S.doff]
       r1 == IF ~skipBuffer /\ ChanDur(st.ch[i]) # 0
             THEN
               LET r0 == IF ~skipWait THEN WaitForFall(st, i) ELSE Ok(st) IN
@@ -591,7 +784,7 @@ EnableEom(st, nm, sp, cpd) ==
   IF r.out # "ok" THEN r
   ELSE
   LET buf == LastOf(r.st.ch[i].sl)
-      dp == [on |-> TRUE, rate |-> -S.dofm, ti |-> origin]
+      dp == [on |-> TRUE, rate |-> -S.doff, ti |-> origin]
       st2 == IF cpd
              THEN ShiftRefs(r.st, RefIdx(r.st, cfg.basis), buf.tg, -DriftAt(dp, buf.tf))
              ELSE r.st
@@ -635,7 +828,7 @@ ModifyEom(st, nm, sp, cpd) ==
   ELSE
   LET r0 == DisableEomSched(st, i, TRUE)
       oldp == LastEomDrift(r0.st.ch[i])
-      newp == [on |-> TRUE, rate |-> -S.dofm, ti |-> ChanDur(r0.st.ch[i])]
+      newp == [on |-> TRUE, rate |-> -S.doff, ti |-> ChanDur(r0.st.ch[i])]
       r == EnableEomSched(r0.st, i, sp, FALSE, TRUE)
   IN
   IF r.out # "ok" THEN r
@@ -695,8 +888,13 @@ Step(st, c) ==
     [] c.op = "eom_off"  -> DisableEom(st, c.nm, c.cpd)
     [] c.op = "eom_mod"  -> ModifyEom(st, c.nm, c.sp, c.cpd)
     [] c.op = "eom_add"  -> AddEomPulse(st, c.nm, c.dur, c.ph, c.pps, c.proto, c.cpd)
+    [] c.op = "detmap"   -> ConfigDetMap(st, c.mp, c.cid)
+    [] c.op = "slm"      -> ConfigSlm(st, c.tg, c.cid)
+    [] c.op = "dmm_add"  -> AddDmm(st, c.nm, c.p, c.proto)
+    [] c.op = "magfield" -> MagField(st, c.zero)
 
-Init0(d) == [dev |-> d, mode |-> "none", meas |-> "", empty |-> TRUE, slmDmm |-> 0,
+Init0(d) == [dev |-> d, mode |-> "none", meas |-> "", empty |-> TRUE,
+             slmDmm |-> 0, slmNm |-> 0, slmTg |-> 0,
              ch |-> <<>>, rf |-> <<>>, lg |-> <<>>]
 
 (* Replay of a list of calls (indices into Calls) from the initial state *)
